@@ -181,6 +181,9 @@ func run(id, tier string) int {
 		return 2
 	}
 
+	// rapid replays saved fail files before anything else: none must be around
+	os.RemoveAll(filepath.Join(root, "harness", "checks", "testdata", "rapid"))
+
 	rlappRace := ""
 
 	if tier == "thorough" {
